@@ -1024,6 +1024,29 @@ Proof.
 Qed.
 
 
+
+(* WriteHeader's cleanup leaves a well-formed header alone *)
+Lemma dval_bound l : forallb is_digit l = true -> 0 <= dval l 0 < 10 ^ (blen l).
+Proof.
+  induction l as [|d l IH] using rev_ind; intro H; [cbn; lia|].
+  rewrite forallb_app in H. apply andb_true_iff in H. destruct H as [H1 H2]. cbn [forallb] in H2.
+  specialize (IH H1). unfold dval in *. rewrite fold_left_app. cbn [fold_left].
+  unfold blen in *. rewrite app_length. cbn [length]. rewrite Nat2Z.inj_add, Z.pow_add_r by lia.
+  change (Z.of_nat 1) with 1. rewrite Z.pow_1_r. unfold is_digit in H2. lia.
+Qed.
+Lemma eff_wf h : wf_hdrs h = true -> eff_hdrs h = h.
+Proof.
+  intro Hwf. unfold wf_hdrs in Hwf. apply andb_true_iff in Hwf. destruct Hwf as [_ H3].
+  unfold eff_hdrs, get_first. destruct (get_all s_cl h) as [|v [|v2 l]]; [reflexivity| |discriminate].
+  unfold digits18 in H3. apply andb_true_iff in H3. destruct H3 as [H3 Hl]. apply andb_true_iff in H3. destruct H3 as [Hne Hd].
+  destruct v as [|c r]; [reflexivity|].
+  pose proof (dval_bound (c :: r) Hd) as Hb.
+  assert (Hp : parse_dec (c :: r) = Some (dval (c :: r) 0)) by (unfold parse_dec; rewrite Hd; reflexivity).
+  assert (Hlt : 10 ^ blen (c :: r) <= 10 ^ 18) by (apply Z.pow_le_mono_r; unfold blen; lia).
+  rewrite (parse_int_digits (c :: r) _ Hd Hp) by lia.
+  replace (0 <=? dval (c :: r) 0) with true by lia. reflexivity.
+Qed.
+
 (* ---------- the property on the model's own output, module responses ---------- *)
 Lemma probe_is_probe : is_probe_response probe_bytes = true.
 Proof. vm_compute. reflexivity. Qed.
@@ -1036,7 +1059,7 @@ Theorem prop_of_model_module i c :
 Proof.
   intros Hdec Hsrc Hm Hst Hwf Hlen Hirr.
   unfold prop_C27, run_C27. rewrite Hdec. unfold exchange, response_of.
-  assert (Es : negb (i_src c =? 1) = true) by lia. rewrite Es.
+  assert (Es : negb (i_src c =? 1) = true) by lia. rewrite Es, (eff_wf _ Hwf).
   destruct (respond (i_q c) (false, false, false, false) (negb (i_src c =? 0)) (i_status c) (i_hdrs c) (i_pieces c) (i_err c))
     as [[out close] dr] eqn:Er.
   set (tail := if close then [] else probe_bytes).
@@ -1046,8 +1069,12 @@ Proof.
     rewrite He, Es in Hirr. cbn [andb] in Hirr. apply orb_false_iff in Hirr. destruct Hirr as [H1 H2]. split; [exact H1|].
     intros v Hv. unfold get_first in H2. rewrite Hv in H2.
     unfold wf_hdrs in Hwf. apply andb_true_iff in Hwf. destruct Hwf as [_ Hw]. rewrite Hv in Hw.
-    unfold digits18 in Hw. apply andb_true_iff in Hw. destruct Hw as [Hw _]. apply andb_true_iff in Hw. destruct Hw as [Hne Hd].
-    destruct v as [|b v']; [discriminate|]. unfold parse_dec in *. rewrite Hd in *.
+    unfold digits18 in Hw. apply andb_true_iff in Hw. destruct Hw as [Hw Hl18]. apply andb_true_iff in Hw. destruct Hw as [Hne Hd].
+    destruct v as [|b v']; [discriminate|].
+    pose proof (dval_bound (b :: v') Hd) as Hb.
+    assert (Hlt : 10 ^ blen (b :: v') <= 10 ^ 18) by (apply Z.pow_le_mono_r; unfold blen; lia).
+    assert (Hpd : parse_dec (b :: v') = Some (dval (b :: v') 0)) by (unfold parse_dec; rewrite Hd; reflexivity).
+    rewrite Hpd in *. replace (dval (b :: v') 0 <? 2 ^ 63) with true in H2 by lia. cbn [andb] in H2.
     apply negb_false_iff in H2. apply Z.eqb_eq in H2. unfold supplied_body in H2. rewrite H2. reflexivity. }
   destruct (parses_as_one (i_q c) (negb (i_src c =? 0)) (i_status c) (i_hdrs c) (i_pieces c) (i_err c) tail out close dr
               Hwf Hm Hst Hlen Hreg Er) as [fs [fr [Hp [Hfr [cl [hd [p Hfs]]]]]]].
